@@ -308,22 +308,24 @@ Qed.
 
 Lemma etree_key_ok dns q : plainq q = true -> skey_ok dns (etree_key dns q) = true.
 Proof.
-  destruct q as [ns n]. unfold plainq, etree_key, skey_ok, skey_shape, collides. cbn. rewrite andb_true_iff. intros [Hns Hn].
-  destruct (null ns) eqn:En; cbn.
+  destruct q as [ns n]. unfold plainq, etree_key, skey_ok, skey_shape, collides. cbn [fst snd].
+  rewrite andb_true_iff. intros [Hns Hn].
+  destruct (null ns) eqn:En; cbn [negb andb].
   - rewrite (spec_clark_plain n Hn). rewrite Hn. reflexivity.
-  - destruct (str_eqb dns ns) eqn:Ed; cbn.
+  - destruct (str_eqb dns ns) eqn:Ed; cbn [negb andb].
     + rewrite (spec_clark_plain n Hn). rewrite Hn. reflexivity.
-    + rewrite (split1_plain ns n Hns). rewrite En, Hns, Hn, Ed. reflexivity.
+    + rewrite (spec_clark_braced ns n Hns). rewrite En, Hns, Hn, Ed. reflexivity.
 Qed.
 
 Lemma present_etree_key dns q : plainq q = true -> present dns (etree_key dns q) = norm dns q.
 Proof.
-  destruct q as [ns n]. unfold plainq, etree_key, norm. rewrite present_spec. cbn. rewrite andb_true_iff. intros [Hns Hn].
-  destruct (null ns) eqn:En; cbn.
+  destruct q as [ns n]. unfold plainq, etree_key, norm. rewrite present_spec. cbn [fst snd].
+  rewrite andb_true_iff. intros [Hns Hn].
+  destruct (null ns) eqn:En; cbn [negb andb].
   - rewrite (spec_clark_plain n Hn). reflexivity.
-  - destruct (str_eqb dns ns) eqn:Ed; cbn.
+  - destruct (str_eqb dns ns) eqn:Ed; cbn [negb andb].
     + rewrite (spec_clark_plain n Hn). apply str_eqb_eq in Ed. subst. reflexivity.
-    + rewrite (split1_plain ns n Hns). reflexivity.
+    + rewrite (spec_clark_braced ns n Hns). reflexivity.
 Qed.
 
 Lemma etree_key_norm_iff dns q q' :
